@@ -199,6 +199,23 @@ SPECS += [
          props=["C15"]),
 ]
 
+# ---- data/grid_spec.py : the memoised data_shape / data_size of RectilinearGrid and the data_location setter (C14) ----
+# `super().data_shape` / `super().data_size` (StructuredGrid / Grid: what the current location gives) are parameters;
+# `_check_location` returns the location or raises
+SPECS += [
+    dict(lean="RectilinearGrid_data_shape", path="data/grid_spec.py", qual="RectilinearGrid.data_shape", group="GridMemo",
+         fields={"_data_shape": "Opt[List[Int]]"}, extra_params={"base_shape": "List[Int]"}, ret="Opt[List[Int]]",
+         consts={"super().data_shape": ("base_shape", "List[Int]")}, props=["C14"]),
+    dict(lean="RectilinearGrid_data_size", path="data/grid_spec.py", qual="RectilinearGrid.data_size", group="GridMemo",
+         fields={"_data_size": "Opt[Int]"}, extra_params={"base_size": "Int"}, ret="Opt[Int]",
+         consts={"super().data_size": ("base_size", "Int")}, props=["C14"]),
+    dict(lean="RectilinearGrid_set_data_location", path="data/grid_spec.py", qual="RectilinearGrid.data_location@setter",
+         group="GridMemo", fields={"_data_location": "Obj", "_data_shape": "Opt[List[Int]]", "_data_size": "Opt[Int]"},
+         params={"data_location": "Obj"}, extra_params={"checkLoc": "Lean:(Nat → Except Err Nat)"}, ret="Unit",
+         calls={"_check_location": {"lean": "checkLoc", "args": [1], "argtypes": ["Obj"], "ret": "Obj"}},
+         locals={"_data_shape": "Opt[List[Int]]", "_data_size": "Opt[Int]"}, props=["C14"]),
+]
+
 INTEG_COMMON = dict(
     path="adapters/time_integration.py", group="Integ", ret="Rat",
     calls={"self._unpack": "id", "interpolate": {"lean": "interpolate", "args": [0, 1, 2], "ret": "Rat"}},
